@@ -1,5 +1,6 @@
 """Independent monitors for the handshake properties (C15, C16, C17, C07-handshake). Uses hashlib/base64 and a
 simple CRLF/colon head parser written here - never the Coq model."""
+import collections
 import base64, hashlib, binascii
 from . import ws
 
@@ -87,6 +88,19 @@ def head_complete_chunk(chunks):
             return k, cum[i + 4:]
     return None, b''
 
+def _missing_cb_headers(field, wire_headers):
+    """first (name, value) pair of the callback's header list (name=value;... in hex) that is not on the wire"""
+    if field in ('-', ''):
+        return None
+    have = collections.Counter((n.lower(), v) for n, v in wire_headers)
+    for item in field.split(';'):
+        n, v = item.split('=')
+        key = (bytes.fromhex(n).lower(), bytes.fromhex(v) if v not in ('-', '') else b'')
+        if have[key] <= 0:
+            return key
+        have[key] -= 1
+    return None
+
 def mon_c15(case_line, trace):
     f = case_line.split(' ')
     cb = f[2]
@@ -141,6 +155,10 @@ def mon_c15(case_line, trace):
                 return 'response-headers: Upgrade/Connection missing in the 101'
             if rcons != len(wire):
                 return 'response-trailing: bytes follow the 101 head'
+            if cb.startswith('add:'):
+                miss = _missing_cb_headers(cb.split(':')[1], rhs)
+                if miss:
+                    return 'callback-header-lost: the callback added %r but the 101 on the wire does not carry it' % (miss,)
     if cb.startswith('rej:') and once_valid and not hard_transport(evs):
         st = int(cb.split(':')[1])
         if 200 <= st < 300:
@@ -153,6 +171,9 @@ def mon_c15(case_line, trace):
             rh = parse_head(wire)
             if rh is None or not rh[0].startswith(b'HTTP/1.1 %d' % st):
                 return 'callback-reject-not-written: rejection response not written in full'
+            miss = _missing_cb_headers(cb.split(':')[3], rh[1])
+            if miss:
+                return 'callback-header-lost: the rejection response of the callback has %r but the wire does not carry it' % (miss,)
             exp_body = b'' if body == 'none' else bytes.fromhex(body)
             if wire[rh[2]:] != exp_body:
                 return 'callback-reject-body: body on the wire differs'
